@@ -452,6 +452,24 @@ def mon_c05(tr, upper=True):
                     out.append(("timeout:late", "request %d (timeout %ds) answered TIMEOUT after %ds (> T+2)" % (rp["req"], T, t - t0), i))
             elif rp["req"] in queued and rp["result"] != R["EXPRIED"]:
                 queued.pop(rp["req"])
+        # "... gets its TIMEOUT reply within [T, T+2 s]", while it happens: after a timeout sweep of a stretch that has been
+        # regular (unit ticks, both sweeps, leader) ever since the request was queued, no request may still wait more than
+        # 12 s past its deadline (the margin of the C06 rule; the theorem's bound for such a stretch is T + 2)
+        if upper and st["line"] == "sweept" and st["after"] and not st["panic"] and queued:
+            s_ = st["after"]
+            if s_.get("uafw", 0) > 0 or any((h and h.get("freed")) for k in s_["keys"].values() for h in [k.get("cur")] + k["holders"] + k["waiters"]):
+                queued.clear()
+                continue
+            for rid, (t0, q, i0) in list(queued.items()):
+                T = unit_seconds(q["tflag"], q["timeout"])
+                if q["tflag"] & 0x100 or s_["now"] <= t0 + T + 12:
+                    continue
+                queued.pop(rid)
+                ka = s_["keys"].get(q["key"])
+                if ka and any(w and not w.get("freed") and w["req"] == rid for w in ka["waiters"]) and regular(tr, i0, i) and all(leader_at(tr, x) for x in (i0, i)) \
+                        and not any(tr.steps[x]["line"].startswith("role") for x in range(i0, i + 1)):
+                    out.append(("timeout:never-answered", "request %d (timeout %ds, queued at %d) is still waiting %d s after its deadline although the timeout sweeper ran every second"
+                                % (rid, T, t0, s_["now"] - t0 - T), i))
     return out
 
 
